@@ -448,6 +448,11 @@ func genCSV(t *rapid.T) CSVCase {
 			if strings.ContainsAny(f, ":#{}[]&*!|>'%@`") || strings.HasSuffix(f, " ") {
 				f = "x" + rapid.SampledFrom([]string{"a,b", "q\"q", "two\nlines", "plain", "sp ace", ""}).Draw(t, "safe")
 			}
+			if !c.TSV && rapid.IntRange(0, 9).Draw(t, "edgefield") == 0 {
+				// fields that stay strings but have blanks at their ends or are wrapped in quote characters: the
+				// text of the field is its value, nothing is trimmed or unquoted
+				f = rapid.SampledFrom([]string{" lead", "trail ", " both ", "'sq'", "\"dq\"", "' q", "x  y"}).Draw(t, "edge")
+			}
 			row = append(row, f)
 		}
 		c.Rows = append(c.Rows, row)
